@@ -154,6 +154,8 @@ fn grammar_strings(f: &mut dyn FnMut(&str)) {
 
 fn reader_universe(boards: &[(Board, Pos, Vec<Mv>)], sink: &Sink) -> Tally {
     let alpha40 = crate::props::pure::ALPHA40;
+    let menu_v = crate::props::textp::unicode_menu(false);
+    let menu: &[char] = &menu_v;
     // parallel over (board, piece letter) blocks of the grammar
     let t: Tally = boards
         .par_iter()
@@ -186,6 +188,28 @@ fn reader_universe(boards: &[(Board, Pos, Vec<Mv>)], sink: &Sink) -> Tally {
                 t.evals += 1;
                 check_san_text(b, p, legal, s, sink, &mut t);
             });
+            // the canonical SAN of every legal move: padded to great lengths, and with every
+            // character position substituted by every character of the Unicode menu
+            for &m in legal.iter() {
+                let base = refmodel::san::san(p, m);
+                for pad in [' ', '+', '#', '0', 'x', '\u{e9}'] {
+                    for n in (1..=300usize).chain(505..=520) {
+                        let run: String = std::iter::repeat(pad).take(n).collect();
+                        for text in [format!("{}{}", base, run), format!("{}{}", run, base)] {
+                            t.evals += 1;
+                            check_san_text(b, p, legal, &text, sink, &mut t);
+                        }
+                    }
+                }
+                let chars: Vec<char> = base.chars().collect();
+                for pos in 0..chars.len() {
+                    for &c in menu {
+                        let text: String = chars.iter().enumerate().map(|(i, &x)| if i == pos { c } else { x }).collect();
+                        t.evals += 1;
+                        check_san_text(b, p, legal, &text, sink, &mut t);
+                    }
+                }
+            }
             t
         })
         .reduce(Tally::default, Tally::merge);
@@ -290,7 +314,7 @@ pub fn run(run: &mut Run) {
     let t0 = Instant::now();
     let boards = reader_boards(q, &run.sink);
     let t = reader_universe(&boards, &run.sink);
-    run.add("T-SAN", json!({"boards": boards.len(), "grammar_strings_per_board": 7 * 9 * 9 * 2 * 64 * 13 * 3, "castle_lookalikes": 80, "short_strings": "all of length <= 3 over 40 symbols"}), true, t0, t);
+    run.add("T-SAN", json!({"boards": boards.len(), "grammar_strings_per_board": 7 * 9 * 9 * 2 * 64 * 13 * 3, "castle_lookalikes": 80, "short_strings": "all of length <= 3 over 40 symbols", "canonical_san_of_every_legal_move": "padded before/after with 1..=300 and 505..=520 copies of one of 6 characters; every position substituted by every character of the Unicode menu (ASCII, case-mapping look-alikes, white space, numerics, full-width forms)"}), true, t0, t);
 }
 
 pub fn replay(case: &Value, sink: &Sink, t: &mut Tally) -> Result<(), String> {
